@@ -25,6 +25,7 @@
 (* Mode "rows"   : every row up to MaxCols tokens            (pattern R)   *)
 (* Mode "objs"   : every qualified-name shape, round trip    (pattern R)   *)
 (* Mode "update" : every fault configuration                 (pattern S)   *)
+(* Mode "hist"   : every sequence of up to 4 look-ups / loads on one reader  *)
 (* Mode "multi"  : every sequence of up to 3 --intersphinx URLs (host x    *)
 (*                 outcome of the fetch), loaded one after the other       *)
 (*                 through ONE IntersphinxCache into ONE SphinxInventory   *)
@@ -42,6 +43,8 @@ FixEmpty == "empty-token-shifts-columns" \in Fixed   \* columns may be separated
 FileRows == IF Mode = "file" THEN JsonDeserialize(IOEnv.ROWS_FILE) ELSE <<>>
 
 IsInt(c)    == c = "int"
+HistEvents == {"L1", "L2", "I1", "I2", "B1"}
+NameOf(e) == IF e \in {"L1", "I1", "B1"} THEN "n1" ELSE "n2"
 Hosts    == {"h1", "h2"}
 Outcomes == {"ok", "exception", "junk"}
 HasColon(c) == c \in {"py", "std", "pyx"}
@@ -120,6 +123,8 @@ RowClasses(row) ==
            ELSE {})
 
 \* -------------------------------------------------------------------- the writer
+\* (a component that is not an identifier but has no space - the setter `width.setter` of a property, a root module
+\* `run-me` - is one word like any other: the harness puts such objects into every project it writes)
 \* a qualified name = components, each possibly a renamed duplicate "X 0"; split at spaces it gives
 \* 1 + (number of duplicates) tokens, the last one being the bare "0" iff the last component is a duplicate
 NameRow(dups) ==
@@ -149,20 +154,23 @@ LineRow(lk) == CASE lk = "py" -> <<"w", "py", "int", "w", "w">>
                  [] lk = "blank" -> <<"e">>
                  [] lk = "pyx" -> <<"w", "pyx", "int", "w", "w">>
 
-VARIABLES row, dups, cfg, pc, li, errors, links
-vars == <<row, dups, cfg, pc, li, errors, links>>
+VARIABLES row, dups, cfg, pc, li, errors, links,
+          answers      \* "hist": what the look-ups made so far have answered (TRUE = a link)
+vars == <<row, dups, cfg, pc, li, errors, links, answers>>
 
 RECURSIVE SeqsUpTo(_, _)
 SeqsUpTo(S, n) == IF n = 0 THEN {<<>>} ELSE SeqsUpTo(S, n - 1) \cup {Append(s, x) : s \in {t \in SeqsUpTo(S, n - 1) : Len(t) = n - 1}, x \in S}
 NoCfg == [url |-> "ok", fetch |-> "ok", header |-> "normal", zip |-> "ok", text |-> "ok", lines |-> <<>>]
 
 Init ==
-   /\ li = 1 /\ errors = 0 /\ links = {}
+   /\ li = 1 /\ errors = 0 /\ links = {} /\ answers = <<>>
    /\ \/ /\ Mode = "rows" /\ row \in (SeqsUpTo(Classes, MaxCols) \ {<<>>}) /\ dups = <<>> /\ cfg = NoCfg /\ pc = "done"
       \/ /\ Mode = "file" /\ \E i \in 1..Len(FileRows) : row = FileRows[i]
          /\ dups = <<>> /\ cfg = NoCfg /\ pc = "done"
       \/ /\ Mode = "objs" /\ row = <<>> /\ cfg = NoCfg /\ pc = "done"
          /\ dups \in {d \in (SeqsUpTo(BOOLEAN, MaxDepth) \ {<<>>}) : ~d[1]}          \* a module is never a duplicate
+      \/ /\ Mode = "hist" /\ row = <<>> /\ dups = <<>> /\ pc = "hist"
+         /\ cfg \in (SeqsUpTo(HistEvents, 4) \ {<<>>})
       \/ /\ Mode = "multi" /\ row = <<>> /\ dups = <<>> /\ pc = "multi"
          /\ cfg \in (SeqsUpTo([host : Hosts, out : Outcomes], 3) \ {<<>>})
       \/ /\ Mode = "update" /\ row = <<>> /\ dups = <<>> /\ pc = "rsplit"
@@ -172,7 +180,7 @@ Init ==
          /\ Cardinality({s \in {"url", "fetch", "header", "zip", "text"} :
                            cfg[s] \notin {"ok", "normal"}}) <= 1
 
-Keep == UNCHANGED <<row, dups, cfg>>
+Keep == UNCHANGED <<row, dups, cfg, answers>>
 Fail(msgs) == /\ errors' = errors + msgs /\ pc' = "done" /\ UNCHANGED <<li, links>> /\ Keep
 Go(next)   == /\ pc' = next /\ UNCHANGED <<li, errors, links>> /\ Keep
 \* url.rsplit('/', 1) (:62-66)
@@ -204,7 +212,19 @@ FetchNext == /\ pc = "multi" /\ Keep
                           [] cfg[li].out = "exception" -> errors' = errors + 1 /\ UNCHANGED links
                           \* a body that is not an inventory -> 'Failed to uncompress inventory'
                           [] cfg[li].out = "junk" -> errors' = errors + 1 /\ UNCHANGED links
-Next == Rsplit \/ Fetch \/ Payload \/ Inflate \/ Decode \/ Lines \/ FetchNext
+\* ---- look-ups and loads in any order on ONE SphinxInventory (the linker asks while inventories may still be
+\* loaded: get_system runs fetchIntersphinxInventories once, API users call update() whenever they like).
+\* L1 / L2 = getLink(name defined by inventory 1 / 2) (:133-147), I1 / I2 = update() with that inventory,
+\* B1 = update() with a truncated download of inventory 1.  getLink reads self._links and nothing else: an
+\* answer depends on what is loaded at that moment, never on earlier answers.
+HistStep == /\ pc = "hist" /\ UNCHANGED <<row, dups, cfg>>
+            /\ IF li > Len(cfg) THEN pc' = "done" /\ UNCHANGED <<li, errors, links, answers>>
+               ELSE LET e == cfg[li] IN
+                    /\ li' = li + 1 /\ pc' = pc
+                    /\ CASE e \in {"L1", "L2"} -> answers' = Append(answers, NameOf(e) \in links) /\ UNCHANGED <<errors, links>>
+                         [] e \in {"I1", "I2"} -> links' = links \cup {NameOf(e)} /\ UNCHANGED <<errors, answers>>
+                         [] e = "B1" -> errors' = errors + 1 /\ UNCHANGED <<links, answers>>
+Next == Rsplit \/ Fetch \/ Payload \/ Inflate \/ Decode \/ Lines \/ FetchNext \/ HistStep
 Spec == Init /\ [][Next]_vars
 
 \* the contract of update (from the property statement)
@@ -222,6 +242,13 @@ UpdateClasses ==
 
 \* design-level invariants, relaxed by exactly the open known findings
 \* every inventory that could be fetched resolves its names, whatever happened to the others; one message per failure
+\* a look-up answers with a link exactly when an inventory defining the name has been loaded BEFORE it
+LookupPositions == {i \in DOMAIN cfg : cfg[i] \in {"L1", "L2"}}
+NthLookup(k) == CHOOSE i \in LookupPositions : Cardinality({j \in LookupPositions : j <= i}) = k
+Loaded(i, nm) == \E j \in 1..(i - 1) : cfg[j] \in {"I1", "I2"} /\ NameOf(cfg[j]) = nm
+LookupsFollowLoads == (Mode = "hist" /\ pc = "done") =>
+                         /\ Len(answers) = Cardinality(LookupPositions)
+                         /\ \A k \in DOMAIN answers : answers[k] = Loaded(NthLookup(k), NameOf(cfg[NthLookup(k)]))
 EachGoodResolves == (Mode = "multi" /\ pc = "done") =>
                        /\ links = {i \in DOMAIN cfg : cfg[i].out = "ok"}
                        /\ errors = Cardinality({i \in DOMAIN cfg : cfg[i].out # "ok"})
@@ -233,6 +260,7 @@ DesignKnown ==
    /\ Mode = "objs" => ((\A i \in DOMAIN dups : ~dups[i]) => (RoundTrip(dups) /\ RoundTripSphinx(dups)))
    /\ Mode = "update" => (Terminal => UpdateClasses \subseteq Open)
    /\ EachGoodResolves
+   /\ LookupsFollowLoads
 
 Emit ==
    CASE Mode \in {"rows", "file"} ->
@@ -241,6 +269,8 @@ Emit ==
      [] Mode = "objs" ->
           PrintT(ToJson([dups |-> dups, row |-> WriteLine(dups), impl |-> ImplParse(WriteLine(dups)),
                          roundtrip |-> RoundTrip(dups), sphinx |-> RoundTripSphinx(dups)]))
+     [] Mode = "hist" ->
+          (Terminal => PrintT(ToJson([cfg |-> cfg, answers |-> answers, links |-> links, errors |-> errors])))
      [] Mode = "multi" ->
           (Terminal => PrintT(ToJson([cfg |-> cfg, errors |-> errors, links |-> links])))
      [] Mode = "update" ->
